@@ -471,3 +471,107 @@ func TestVerif_C20_Negative(t *testing.T) {
 		}
 	})
 }
+
+// TestVerif_C20_AutomaticRenomination: the controlling agent is configured with WithAutomaticRenomination and
+// — drawn — with or without the renomination feature itself.  The agents first connect over a relay pair (the
+// checker delivers that pair's traffic first), then the direct pair becomes valid.  With the feature the agents
+// move to the direct pair, mirror images of each other; without it nobody may nominate anything any more.
+func TestVerif_C20_AutomaticRenomination(t *testing.T) {
+	st := vfNewStats(t)
+	rapid.Check(t, func(rt *rapid.T) {
+		feature := rapid.Bool().Draw(rt, "renominationEnabled")
+		ctl := rapid.IntRange(0, 1).Draw(rt, "controlling")
+		extraTicks := rapid.IntRange(1, 4).Draw(rt, "ticksAfterDirectPairValid")
+		c := duoCase{NoSignal: map[string]bool{}, MaxBinding: 7, ReusePorts: true, Controlling: ctl}
+		c.Socks[ctl] = []duoSockSpec{{Kind: simKindHost}, {Kind: simKindRelayish}}
+		c.Socks[1-ctl] = []duoSockSpec{{Kind: simKindHost}}
+		d, err := newDuoSim(c, func(side int, cfg *simAgentConfig) {
+			cfg.renomination = feature
+			if side == ctl {
+				cfg.extra = append(cfg.extra, WithAutomaticRenomination(time.Nanosecond))
+			}
+		})
+		if err != nil {
+			rt.Fatalf("harness: %v", err)
+		}
+		defer d.close()
+		if err := d.addLocals(); err != nil {
+			rt.Fatalf("harness: %v", err)
+		}
+		if err := d.startBoth(); err != nil {
+			rt.Fatalf("harness: %v", err)
+		}
+		d.signalAll()
+		A, B := d.ag[ctl], d.ag[1-ctl]
+		relaySock := A.socks[1]
+		viaRelay := func(dg *simDgram) bool { return dg.src == relaySock || dg.dst == relaySock.pub }
+		// phase 1: only the relay pair's traffic gets through
+		for round := 0; round < 12 && (A.selectedPair() == nil || B.selectedPair() == nil); round++ {
+			A.tick()
+			B.tick()
+			for progress := true; progress; {
+				progress = false
+				d.w.mu.Lock()
+				idx := -1
+				for i, dg := range d.w.inflight {
+					if viaRelay(dg) {
+						idx = i
+
+						break
+					}
+				}
+				d.w.mu.Unlock()
+				if idx >= 0 {
+					d.w.deliver(d.w.take(idx))
+					progress = true
+				}
+			}
+		}
+		if A.selectedPair() == nil || B.selectedPair() == nil || A.selectedPair().Local.Type() != CandidateTypeRelay {
+			rt.Fatalf("harness: the agents did not connect over the relay pair first (A=%v B=%v)", A.selectedPair(), B.selectedPair())
+		}
+		// phase 2: the direct pair's checks get through as well
+		d.deliverAll()
+		time.Sleep(50 * time.Microsecond)
+		from := d.w.logLen()
+		for i := 0; i < extraTicks; i++ {
+			A.tick()
+			d.deliverAll()
+			B.tick()
+			d.deliverAll()
+		}
+		d.fairSuffix(6, nil)
+		if d.w.elapsed() > 2*time.Second {
+			st.Inconclusive()
+
+			return
+		}
+		nominationsAfter := 0
+		for _, dg := range d.w.emittedSince(from, A.side) {
+			if dg.msg != nil && dg.msg.class == stun.ClassRequest && (dg.msg.useCand || dg.msg.nomination != nil) {
+				nominationsAfter++
+			}
+		}
+		desc := fmt.Sprintf("feature=%v controlling=%c ticks=%d nominationsAfterConnect=%d final=%s", feature, 'A'+ctl, extraTicks, nominationsAfter, d.snapshotSel())
+		st.Record(vfHashStr(desc), true, fmt.Sprintf("renomination-enabled:%v", feature))
+		if st.WantSample() {
+			st.Sample(func() string { return desc })
+		}
+		if sig, msg := d.mirrorCheck(); sig != "" {
+			st.Fail(rt, "C20/auto/not-mirror-images", "%s (%s)\n%s", msg, sig, desc)
+		}
+		onDirect := A.selectedPair() != nil && A.selectedPair().Local.Type() == CandidateTypeHost
+		if feature {
+			if !onDirect {
+				st.Fail(rt, "C20/auto/did-not-move-to-the-direct-pair", "automatic renomination is on, the direct pair is valid, but the controlling agent stays on %s\n%s", pairKey(A.selectedPair()), desc)
+			}
+		} else {
+			if nominationsAfter != 0 {
+				st.Fail(rt, "C20/auto/nominated-without-the-feature", "renomination is not enabled, yet the controlling agent sent %d nomination request(s) after the connection was up\n%s", nominationsAfter, desc)
+			}
+			if onDirect {
+				st.Fail(rt, "C20/auto/moved-without-the-feature", "renomination is not enabled, yet the selection moved to the direct pair\n%s", desc)
+			}
+		}
+	})
+}
